@@ -233,7 +233,7 @@ def classes(case):
 SUBS = [
     Sub("shapes", check, enum=enum_shapes, nontrivial=nontrivial, classes=classes, exhaustive=True, min_nontrivial=0.0),
     Sub("random-trees", check, gen=lambda tier: big_trees(200 if tier == "thorough" else 60), nontrivial=nontrivial,
-        classes=classes, n={"quick": 200, "thorough": 1500}, essential=["size:>50", "root-only"] , min_nontrivial=0.005),
+        classes=classes, n={"quick": 400, "thorough": 2000}, essential=["size:>50", "root-only"] , min_nontrivial=0.005),
     Sub("rounding-boundaries", check, enum=enum_rounding, nontrivial=lambda case: True,
         classes=lambda case: {"rounding-boundary"}, exhaustive=False),
     Sub("corpus", check, enum=enum_corpus, nontrivial=nontrivial, classes=classes,
